@@ -255,7 +255,7 @@ impl UnitPropagate {
 //%% @pub
 //%% @ret r
 //%% @attr #[verifier::exec_allows_no_decreases_clause]
-//%% @attr #[verifier::loop_isolation(false)]
+//%% @attr #[verifier::loop_isolation(false)] #[verifier::allow_complex_invariants]
 //%% @rewrite 1 /for lit in clause\.iter\(\) \{/ => let mut lit__i: usize = 0; while lit__i < clause.len() { let lit = &clause[lit__i]; lit__i += 1;
 //%% @rewrite 1 /let mut remaining_lits = clause\.iter\(\)\.filter\(\|x\| (.*?)\);\n/ => let mut remaining_lits: Vec<&Literal> = Vec::new(); let mut flt__i: usize = 0; while flt__i < clause.len() { let x = &clause[flt__i]; flt__i += 1; if \1 { remaining_lits.push(x); } }\n
 //%% @rewrite 1 /remaining_lits\.clone\(\)\.count\(\)/ => remaining_lits.len()
@@ -269,9 +269,15 @@ impl UnitPropagate {
         ensures
             final(self).inv(), final(self).cnf == old(self).cnf,
             decide_sound(old(self).cnf.clauses@, cur_state, new_assignment, r),
+            // two-watched-literal scheme: the structural invariant is kept; lists of literals on assigned variables are not
+            // touched; every clause watched by a literal that this call makes false is satisfied by the returned model
+            old(self).winv() ==> final(self).winv() && frame_ok(*old(self), *final(self), cur_state)
+                && (r matches UnitPropResult::PartialSAT(m) ==> newly_ok(*final(self), cur_state, m)),
 //%% @entry
         let ghost m0 = cur_state;
         let ghost cs = self.cnf.clauses@;
+        let ghost u0 = *self;
+        let ghost nl = lneg(new_assignment);
         proof {
             assert(extends(m0, m0));
             assert(entailed(cs, m0, new_assignment, m0));
@@ -282,7 +288,9 @@ impl UnitPropagate {
                 cur_state.wf(), extends(cur_state, m0), cur_state.val(new_assignment.lbl) == Some(new_assignment.pol),
                 entailed(cs, m0, new_assignment, cur_state),
                 var_idx == new_assignment.lbl.0, var_idx < self.cnf.num_vars,
+                u0.winv() ==> prog(u0, *self, m0, cur_state, nl, watcher_idx as int),
 //%% @loopbody 1
+            let ghost w0 = watcher_idx as int;
             proof {
                 let m = cur_state;
                 assert forall|c: Seq<Literal>| clause_of(cs, c) && #[trigger] none_true_upto(c, m, c.len() as int) && unassigned(c, m).len() == 0
@@ -291,19 +299,53 @@ impl UnitPropagate {
                     && #[trigger] decide_sound(cs, m, unassigned(c, m)[0], r2)
                     implies (r2 is UNSAT ==> refuted(cs, m0, new_assignment))
                         && (r2 matches UnitPropResult::PartialSAT(m2) ==> entailed(cs, m0, new_assignment, m2) && extends(m2, m0)) by { lemma_step_unit(cs, m0, new_assignment, m, c, r2); }
-                assert forall|c: Seq<Literal>| #![trigger unassigned(c, m)] forall|i: int| 0 <= i < unassigned(c, m).len() ==> c.contains(#[trigger] unassigned(c, m)[i]) by { lemma_unassigned_members(c, m, c.len() as int); }
+                assert forall|c: Seq<Literal>| #![trigger unassigned(c, m)] forall|i: int| 0 <= i < unassigned(c, m).len() ==> c.contains(#[trigger] unassigned(c, m)[i]) && m.val(unassigned(c, m)[i].lbl) is None by { lemma_unassigned_members(c, m, c.len() as int); }
             }
 //%% @loop 2 /^while lit__i < clause\.len\(\)$/
-                invariant
-                    lit__i <= clause.len(),
-                    !is_sat ==> none_true_upto(clause@, cur_state, lit__i as int),
-                    !is_sat ==> (if new_assignment.pol { watcher_idx < self.watch_list_neg@[var_idx as int]@.len() } else { watcher_idx < self.watch_list_pos@[var_idx as int]@.len() }),
-                    is_sat ==> watcher_idx < usize::MAX,
+                invariant_except_break
+                    lit__i <= clause.len(), !is_sat, watcher_idx == w0,
+                    none_true_upto(clause@, cur_state, lit__i as int),
+                    (if new_assignment.pol { watcher_idx < self.watch_list_neg@[var_idx as int]@.len() } else { watcher_idx < self.watch_list_pos@[var_idx as int]@.len() }),
+                ensures
+                    is_sat ==> watcher_idx == w0 + 1 && clause_true_p(clause@, cur_state),
+                    !is_sat ==> watcher_idx == w0 && none_true_upto(clause@, cur_state, clause@.len() as int),
 //%% @loop 3 /^while flt__i < clause\.len\(\)$/
                 invariant
                     flt__i <= clause.len(),
                     remaining_lits@.len() == unassigned_upto(clause@, cur_state, flt__i as int).len(),
                     forall|i: int| 0 <= i < remaining_lits@.len() ==> *(#[trigger] remaining_lits@[i]) == unassigned_upto(clause@, cur_state, flt__i as int)[i],
+//%% @after /^\s*Some\(v\) => \{$/
+                proof { lemma_noop_newly(*self, cur_state); }
+//%% @after /let var_idx = new_assignment\.label\(\)\.value\(\) as usize;/
+        proof { if u0.winv() { lemma_prog_init(u0, m0, cur_state, new_assignment); } }
+//%% @after /^\s*if is_sat \{$/
+                proof { if u0.winv() { lemma_prog_sat(u0, *self, m0, cur_state, nl, w0); } }
+//%% @after /let new_unit = remaining_lits\[0\];/
+                let ghost u1 = *self;
+                let ghost m1 = cur_state;
+                let ghost uu = *new_unit;
+                let ghost cl = clause@;
+//%% @after /cur_state = new_state;/
+                        proof {
+                            if u0.winv() {
+                                lemma_unassigned_members(cl, m1, cl.len() as int);
+                                lemma_member_sat(cl, uu, cur_state);
+                                lemma_prog_rec(u0, u1, *self, m0, m1, cur_state, nl, w0);
+                            }
+                        }
+//%% @after /let new_loc = new_lit\.label\(\)\.value_usize\(\);/
+                let ghost u1 = *self;
+                let ghost nlit = *new_lit;
+//%% @before /\/\/ do not increment watcher_idx/
+                proof {
+                    if u0.winv() {
+                        assert(self.list(nlit) =~= u1.list(nlit).push(u1.list(nl)[w0]));
+                        lemma_taken_out(u1.list(nl), self.list(nl), w0);
+                        lemma_prog_move(u0, u1, *self, m0, cur_state, nl, w0, nlit);
+                    }
+                }
+//%% @before /^\s*UnitPropResult::PartialSAT\(cur_state\)$/
+        proof { if u0.winv() { lemma_prog_exit(u0, *self, m0, cur_state, nl, watcher_idx as int); } }
 //%% end
 }
 
